@@ -17,6 +17,9 @@ pub enum Relation {
     NanLike(u32),
     /// |class difference| <= 1: reflexive, symmetric, not transitive
     Near,
+    /// equal iff same class AND different identity: no value equals itself, yet equals other stored ones
+    /// (symmetric, irreflexive; not a float-NaN pattern)
+    OthersOfSameClass,
 }
 
 #[derive(Clone, Debug, Serialize, Deserialize, PartialEq)]
@@ -28,6 +31,12 @@ pub enum Op {
 
 #[derive(Clone, Debug, Serialize, Deserialize)]
 pub struct Trace {
+    /// element type is an enum with two variants (equality ignores the variant)
+    #[serde(default)]
+    pub enum_elem: bool,
+    /// this many distinct values are appended before the history proper (long-lived storage)
+    #[serde(default)]
+    pub prefill: u32,
     /// element type is zero-sized (all values carry no data; equality still follows the relation on a
     /// thread-local "current class" so NaN-like / always-equal behaviours are possible)
     #[serde(default)]
@@ -38,10 +47,22 @@ pub struct Trace {
     pub ops: Vec<Op>,
 }
 
+trait Elem: PartialEq {
+    fn make(class: u32, uid: u32) -> Self;
+    fn uid(&self) -> u32;
+}
+
 #[derive(Debug)]
 struct V {
     class: u32,
     uid: u32,
+}
+
+/// two variants; which one a value uses depends on its identity, equality does not look at it
+#[derive(Debug)]
+enum E {
+    A { class: u32, uid: u32 },
+    B(u32, u32),
 }
 
 thread_local! {
@@ -50,7 +71,7 @@ thread_local! {
     static UNWIND_AT: Cell<u32> = const { Cell::new(0) };
 }
 
-fn rel_eq(a: u32, b: u32) -> bool {
+fn rel_eq(a: u32, au: u32, b: u32, bu: u32) -> bool {
     let (kind, mask) = REL.with(|r| r.get());
     match kind {
         0 => a == b,
@@ -61,24 +82,69 @@ fn rel_eq(a: u32, b: u32) -> bool {
                 a == b
             }
         }
-        _ => a.abs_diff(b) <= 1,
+        2 => a.abs_diff(b) <= 1,
+        _ => a == b && au != bu,
     }
+}
+
+fn counted_eq(a: u32, au: u32, b: u32, bu: u32) -> bool {
+    let n = EQ_CALLS.with(|c| {
+        c.set(c.get() + 1);
+        c.get()
+    });
+    if UNWIND_AT.with(|u| u.get()) == n {
+        panic!("simulated fault: equality unwinds");
+    }
+    rel_eq(a, au, b, bu)
 }
 
 impl PartialEq for V {
     fn eq(&self, other: &V) -> bool {
-        let n = EQ_CALLS.with(|c| {
-            c.set(c.get() + 1);
-            c.get()
-        });
-        if UNWIND_AT.with(|u| u.get()) == n {
-            panic!("simulated fault: equality unwinds");
+        counted_eq(self.class, self.uid, other.class, other.uid)
+    }
+}
+
+impl Elem for V {
+    fn make(class: u32, uid: u32) -> V {
+        V { class, uid }
+    }
+    fn uid(&self) -> u32 {
+        self.uid
+    }
+}
+
+impl E {
+    fn parts(&self) -> (u32, u32) {
+        match self {
+            E::A { class, uid } => (*class, *uid),
+            E::B(class, uid) => (*class, *uid),
         }
-        rel_eq(self.class, other.class)
+    }
+}
+
+impl PartialEq for E {
+    fn eq(&self, other: &E) -> bool {
+        let (a, au) = self.parts();
+        let (b, bu) = other.parts();
+        counted_eq(a, au, b, bu)
+    }
+}
+
+impl Elem for E {
+    fn make(class: u32, uid: u32) -> E {
+        if uid % 3 == 0 {
+            E::B(class, uid)
+        } else {
+            E::A { class, uid }
+        }
+    }
+    fn uid(&self) -> u32 {
+        self.parts().1
     }
 }
 
 const SENTINEL_CLASS: u32 = 1_000_000;
+const PREFILL_CLASS: u32 = 2_000_000;
 
 /// zero-sized element: every value is indistinguishable; `==` is decided per run (always / never equal)
 #[derive(Debug)]
@@ -166,6 +232,239 @@ fn execute_zst(t: &Trace, cov: &mut Cov) -> RunOut {
     }
 }
 
+fn run_history<T: Elem>(t: &Trace, cov: &mut Cov) -> RunOut {
+    let (kind, mask) = match t.relation {
+        Relation::ByClass => (0u8, 0),
+        Relation::NanLike(m) => (1, m),
+        Relation::Near => (2, 0),
+        Relation::OthersOfSameClass => (3, 0),
+    };
+    REL.with(|r| r.set((kind, mask)));
+    EQ_CALLS.with(|c| c.set(0));
+    UNWIND_AT.with(|u| u.set(t.unwind_at.unwrap_or(0)));
+
+    let mut st: Storage<T> = Storage::new();
+    let mut model: Vec<(u32, u32)> = vec![]; // (class, uid)
+    let mut tokens: Vec<(Token<T>, u32)> = vec![]; // every token ever returned with the uid it must resolve to
+    let mut append_tokens: Vec<u32> = vec![];
+    let mut next_uid = 0u32;
+    let mut h = AbsHash::new();
+    let mut appends = 0u32;
+    let mut fault_fired = false;
+    let mut viol: Option<Violation> = None;
+
+    let fail = |clause: &str, locus: &str, step: usize, detail: String| Some(Violation::new(clause, locus, step, detail));
+    // prefill (no per-step invariant: it would be quadratic); checked once afterwards
+    for k in 0..t.prefill {
+        let uid = next_uid;
+        next_uid += 1;
+        let class = PREFILL_CLASS + k;
+        match guarded(|| st.append(T::make(class, uid))) {
+            Ok(tok) => {
+                if tok.index() as usize != model.len() {
+                    viol = fail("C19.append.dense-index", "op=append", 0, format!("append #{} returned index {}", model.len() + 1, tok.index()));
+                    break;
+                }
+                model.push((class, uid));
+                if k < 64 || k + 8 >= t.prefill {
+                    tokens.push((tok, uid));
+                }
+            }
+            Err(pi) => {
+                viol = fail("C19.append.panic", "op=append", 0, pi.detail());
+                break;
+            }
+        }
+    }
+    if t.prefill > 0 {
+        cov.hit("reached.storage_with_thousands_of_values");
+        appends += 3;
+    }
+
+    'ops: for (step, op) in t.ops.iter().enumerate() {
+        if viol.is_some() {
+            break;
+        }
+        cov.hit("steps");
+        match *op {
+            Op::Append(class) => {
+                let uid = next_uid;
+                next_uid += 1;
+                let r = guarded(|| st.append(T::make(class, uid)));
+                let tok = match r {
+                    Ok(tok) => tok,
+                    Err(pi) => {
+                        viol = fail("C19.append.panic", "op=append", step, pi.detail());
+                        break 'ops;
+                    }
+                };
+                if tok.index() as usize != model.len() {
+                    viol = fail(
+                        "C19.append.dense-index",
+                        "op=append",
+                        step,
+                        format!("append #{} returned index {} (expected {})", model.len() + 1, tok.index(), model.len()),
+                    );
+                    break 'ops;
+                }
+                if append_tokens.contains(&tok.index()) {
+                    viol = fail("C19.append.fresh-token", "op=append", step, format!("token {} returned twice by append", tok.index()));
+                    break 'ops;
+                }
+                append_tokens.push(tok.index());
+                model.push((class, uid));
+                tokens.push((tok, uid));
+                appends += 1;
+                h.push(1, 0);
+                cov.triple(kind as u32, 1, 0);
+            }
+            Op::Fetch(class) => {
+                let uid = next_uid;
+                next_uid += 1;
+                let calls_before = EQ_CALLS.with(|c| c.get());
+                let r = guarded(|| st.fetch_or_append(T::make(class, uid)));
+                match r {
+                    Ok(tok) => {
+                        let expect = model.iter().position(|(c, u)| rel_eq(*c, *u, class, uid));
+                        match expect {
+                            Some(i) => {
+                                if tok.index() as usize != i {
+                                    viol = fail(
+                                        "C19.fetch.first-match",
+                                        "op=fetch_or_append",
+                                        step,
+                                        format!("fetch_or_append(class {}) returned index {}, first equal stored value is at {}", class, tok.index(), i),
+                                    );
+                                    break 'ops;
+                                }
+                                tokens.push((tok, model[i].1));
+                                h.push(2, 1);
+                                cov.triple(kind as u32, 2, 1);
+                                cov.hit("reached.fetch_found");
+                                if i + 1 < model.len() && model[i + 1..].iter().any(|(c, u)| rel_eq(*c, *u, class, uid)) {
+                                    cov.hit("reached.fetch_found_with_later_duplicate");
+                                }
+                            }
+                            None => {
+                                if tok.index() as usize != model.len() {
+                                    viol = fail(
+                                        "C19.fetch.append-when-absent",
+                                        "op=fetch_or_append",
+                                        step,
+                                        format!("fetch_or_append(class {}) returned index {} but no stored value is equal; expected a new token {}", class, tok.index(), model.len()),
+                                    );
+                                    break 'ops;
+                                }
+                                model.push((class, uid));
+                                tokens.push((tok, uid));
+                                appends += 1;
+                                h.push(2, 0);
+                                cov.triple(kind as u32, 2, 0);
+                                if kind == 1 && class < 32 && (mask >> class) & 1 == 1 {
+                                    cov.hit("reached.fetch_nan_like_appends");
+                                }
+                            }
+                        }
+                    }
+                    Err(pi) => {
+                        if pi.msg.starts_with("simulated fault") {
+                            // the environment's fault: only the weak post-condition is required.
+                            fault_fired = true;
+                            cov.hit("fault.eq_unwinds");
+                            h.push(2, 2);
+                            cov.triple(kind as u32, 2, 2);
+                            let _ = calls_before;
+                            // learn the length with a sentinel append (a legal further operation)
+                            let suid = next_uid;
+                            next_uid += 1;
+                            let r2 = guarded(|| st.append(T::make(SENTINEL_CLASS + suid, suid)));
+                            match r2 {
+                                Ok(tok2) => {
+                                    let idx = tok2.index() as usize;
+                                    if idx == model.len() {
+                                        // pending value was not added
+                                    } else if idx == model.len() + 1 {
+                                        model.push((class, uid)); // at most the pending value was added
+                                        cov.hit("reached.unwind_left_pending_value");
+                                    } else {
+                                        viol = fail(
+                                            "C19.unwind.bounded-effect",
+                                            "op=fetch_or_append",
+                                            step,
+                                            format!("after an unwinding comparison the next append got index {} (model length {})", idx, model.len()),
+                                        );
+                                        break 'ops;
+                                    }
+                                    model.push((SENTINEL_CLASS + suid, suid));
+                                    tokens.push((tok2, suid));
+                                }
+                                Err(pi2) => {
+                                    viol = fail("C19.append.panic", "op=append", step, pi2.detail());
+                                    break 'ops;
+                                }
+                            }
+                        } else {
+                            viol = fail("C19.fetch.panic", "op=fetch_or_append", step, pi.detail());
+                            break 'ops;
+                        }
+                    }
+                }
+            }
+            Op::Lookup(k) => {
+                if tokens.is_empty() {
+                    h.push(3, 9);
+                    continue;
+                }
+                let (tok, uid) = tokens[k as usize % tokens.len()];
+                match guarded(|| st[tok].uid()) {
+                    Ok(u) if u == uid => {
+                        h.push(3, 0);
+                    }
+                    Ok(u) => {
+                        viol = fail(
+                            "C19.lookup.stable",
+                            "op=index",
+                            step,
+                            format!("token {} resolves to value uid {} (expected uid {})", tok.index(), u, uid),
+                        );
+                        break 'ops;
+                    }
+                    Err(pi) => {
+                        viol = fail("C19.lookup.panic", "op=index", step, pi.detail());
+                        break 'ops;
+                    }
+                }
+            }
+        }
+        // invariant after every step: every token ever returned still resolves to its value
+        for (tok, uid) in &tokens {
+            match guarded(|| st[*tok].uid()) {
+                Ok(u) if u == *uid => {}
+                Ok(u) => {
+                    viol = fail(
+                        "C19.lookup.stable",
+                        "op=index",
+                        step,
+                        format!("after step {} token {} resolves to uid {} (expected {})", step, tok.index(), u, uid),
+                    );
+                    break 'ops;
+                }
+                Err(pi) => {
+                    viol = fail("C19.lookup.panic", "op=index", step, pi.detail());
+                    break 'ops;
+                }
+            }
+        }
+    }
+    UNWIND_AT.with(|u| u.set(0));
+    RunOut {
+        violation: viol,
+        abs_hash: h.0,
+        nontrivial: appends >= 3 || fault_fired,
+    }
+}
+
+
 pub struct C19;
 
 impl Property for C19 {
@@ -180,9 +479,10 @@ impl Property for C19 {
     }
 
     fn generate(rng: &mut Rng, _tier: Tier) -> Trace {
-        let relation = match rng.below(4) {
+        let relation = match rng.below(6) {
             0 | 1 => Relation::ByClass,
             2 => Relation::NanLike(rng.u32() & rng.u32()),
+            3 => Relation::OthersOfSameClass,
             _ => Relation::Near,
         };
         let nclasses = rng.range(1, 8) as u32;
@@ -207,211 +507,29 @@ impl Property for C19 {
             None
         };
         let zst = rng.chance(1, 16);
-        Trace { zst, relation, unwind_at: if zst { None } else { unwind_at }, ops }
+        // long-lived storage: thousands of distinct values first, then the history refers to early ones
+        let prefill = if !zst && rng.chance(1, 400) { rng.range(3000, 9000) as u32 } else { 0 };
+        if prefill > 0 {
+            for o in ops.iter_mut() {
+                if let Op::Fetch(c) = o {
+                    if rng.chance(2, 3) {
+                        *c = PREFILL_CLASS + rng.below(64.min(prefill as u64)) as u32;
+                    }
+                }
+            }
+        }
+        Trace { enum_elem: !zst && rng.chance(1, 4), prefill, zst, relation, unwind_at: if zst || prefill > 0 { None } else { unwind_at }, ops }
     }
 
     fn execute(t: &Trace, cov: &mut Cov) -> RunOut {
         if t.zst {
             return execute_zst(t, cov);
         }
-        let (kind, mask) = match t.relation {
-            Relation::ByClass => (0u8, 0),
-            Relation::NanLike(m) => (1, m),
-            Relation::Near => (2, 0),
-        };
-        REL.with(|r| r.set((kind, mask)));
-        EQ_CALLS.with(|c| c.set(0));
-        UNWIND_AT.with(|u| u.set(t.unwind_at.unwrap_or(0)));
-
-        let mut st: Storage<V> = Storage::new();
-        let mut model: Vec<(u32, u32)> = vec![]; // (class, uid)
-        let mut tokens: Vec<(Token<V>, u32)> = vec![]; // every token ever returned with the uid it must resolve to
-        let mut append_tokens: Vec<u32> = vec![];
-        let mut next_uid = 0u32;
-        let mut h = AbsHash::new();
-        let mut appends = 0u32;
-        let mut fault_fired = false;
-        let mut viol: Option<Violation> = None;
-
-        let fail = |clause: &str, locus: &str, step: usize, detail: String| Some(Violation::new(clause, locus, step, detail));
-
-        'ops: for (step, op) in t.ops.iter().enumerate() {
-            cov.hit("steps");
-            match *op {
-                Op::Append(class) => {
-                    let uid = next_uid;
-                    next_uid += 1;
-                    let r = guarded(|| st.append(V { class, uid }));
-                    let tok = match r {
-                        Ok(tok) => tok,
-                        Err(pi) => {
-                            viol = fail("C19.append.panic", "op=append", step, pi.detail());
-                            break 'ops;
-                        }
-                    };
-                    if tok.index() as usize != model.len() {
-                        viol = fail(
-                            "C19.append.dense-index",
-                            "op=append",
-                            step,
-                            format!("append #{} returned index {} (expected {})", model.len() + 1, tok.index(), model.len()),
-                        );
-                        break 'ops;
-                    }
-                    if append_tokens.contains(&tok.index()) {
-                        viol = fail("C19.append.fresh-token", "op=append", step, format!("token {} returned twice by append", tok.index()));
-                        break 'ops;
-                    }
-                    append_tokens.push(tok.index());
-                    model.push((class, uid));
-                    tokens.push((tok, uid));
-                    appends += 1;
-                    h.push(1, 0);
-                    cov.triple(kind as u32, 1, 0);
-                }
-                Op::Fetch(class) => {
-                    let uid = next_uid;
-                    next_uid += 1;
-                    let calls_before = EQ_CALLS.with(|c| c.get());
-                    let r = guarded(|| st.fetch_or_append(V { class, uid }));
-                    match r {
-                        Ok(tok) => {
-                            let expect = model.iter().position(|(c, _)| rel_eq(*c, class));
-                            match expect {
-                                Some(i) => {
-                                    if tok.index() as usize != i {
-                                        viol = fail(
-                                            "C19.fetch.first-match",
-                                            "op=fetch_or_append",
-                                            step,
-                                            format!("fetch_or_append(class {}) returned index {}, first equal stored value is at {}", class, tok.index(), i),
-                                        );
-                                        break 'ops;
-                                    }
-                                    tokens.push((tok, model[i].1));
-                                    h.push(2, 1);
-                                    cov.triple(kind as u32, 2, 1);
-                                    cov.hit("reached.fetch_found");
-                                    if i + 1 < model.len() && model[i + 1..].iter().any(|(c, _)| rel_eq(*c, class)) {
-                                        cov.hit("reached.fetch_found_with_later_duplicate");
-                                    }
-                                }
-                                None => {
-                                    if tok.index() as usize != model.len() {
-                                        viol = fail(
-                                            "C19.fetch.append-when-absent",
-                                            "op=fetch_or_append",
-                                            step,
-                                            format!("fetch_or_append(class {}) returned index {} but no stored value is equal; expected a new token {}", class, tok.index(), model.len()),
-                                        );
-                                        break 'ops;
-                                    }
-                                    model.push((class, uid));
-                                    tokens.push((tok, uid));
-                                    appends += 1;
-                                    h.push(2, 0);
-                                    cov.triple(kind as u32, 2, 0);
-                                    if kind == 1 && class < 32 && (mask >> class) & 1 == 1 {
-                                        cov.hit("reached.fetch_nan_like_appends");
-                                    }
-                                }
-                            }
-                        }
-                        Err(pi) => {
-                            if pi.msg.starts_with("simulated fault") {
-                                // the environment's fault: only the weak post-condition is required.
-                                fault_fired = true;
-                                cov.hit("fault.eq_unwinds");
-                                h.push(2, 2);
-                                cov.triple(kind as u32, 2, 2);
-                                let _ = calls_before;
-                                // learn the length with a sentinel append (a legal further operation)
-                                let suid = next_uid;
-                                next_uid += 1;
-                                let r2 = guarded(|| st.append(V { class: SENTINEL_CLASS + suid, uid: suid }));
-                                match r2 {
-                                    Ok(tok2) => {
-                                        let idx = tok2.index() as usize;
-                                        if idx == model.len() {
-                                            // pending value was not added
-                                        } else if idx == model.len() + 1 {
-                                            model.push((class, uid)); // at most the pending value was added
-                                            cov.hit("reached.unwind_left_pending_value");
-                                        } else {
-                                            viol = fail(
-                                                "C19.unwind.bounded-effect",
-                                                "op=fetch_or_append",
-                                                step,
-                                                format!("after an unwinding comparison the next append got index {} (model length {})", idx, model.len()),
-                                            );
-                                            break 'ops;
-                                        }
-                                        model.push((SENTINEL_CLASS + suid, suid));
-                                        tokens.push((tok2, suid));
-                                    }
-                                    Err(pi2) => {
-                                        viol = fail("C19.append.panic", "op=append", step, pi2.detail());
-                                        break 'ops;
-                                    }
-                                }
-                            } else {
-                                viol = fail("C19.fetch.panic", "op=fetch_or_append", step, pi.detail());
-                                break 'ops;
-                            }
-                        }
-                    }
-                }
-                Op::Lookup(k) => {
-                    if tokens.is_empty() {
-                        h.push(3, 9);
-                        continue;
-                    }
-                    let (tok, uid) = tokens[k as usize % tokens.len()];
-                    match guarded(|| st[tok].uid) {
-                        Ok(u) if u == uid => {
-                            h.push(3, 0);
-                        }
-                        Ok(u) => {
-                            viol = fail(
-                                "C19.lookup.stable",
-                                "op=index",
-                                step,
-                                format!("token {} resolves to value uid {} (expected uid {})", tok.index(), u, uid),
-                            );
-                            break 'ops;
-                        }
-                        Err(pi) => {
-                            viol = fail("C19.lookup.panic", "op=index", step, pi.detail());
-                            break 'ops;
-                        }
-                    }
-                }
-            }
-            // invariant after every step: every token ever returned still resolves to its value
-            for (tok, uid) in &tokens {
-                match guarded(|| st[*tok].uid) {
-                    Ok(u) if u == *uid => {}
-                    Ok(u) => {
-                        viol = fail(
-                            "C19.lookup.stable",
-                            "op=index",
-                            step,
-                            format!("after step {} token {} resolves to uid {} (expected {})", step, tok.index(), u, uid),
-                        );
-                        break 'ops;
-                    }
-                    Err(pi) => {
-                        viol = fail("C19.lookup.panic", "op=index", step, pi.detail());
-                        break 'ops;
-                    }
-                }
-            }
-        }
-        UNWIND_AT.with(|u| u.set(0));
-        RunOut {
-            violation: viol,
-            abs_hash: h.0,
-            nontrivial: appends >= 3 || fault_fired,
+        if t.enum_elem {
+            cov.hit("reached.enum_element_type");
+            run_history::<E>(t, cov)
+        } else {
+            run_history::<V>(t, cov)
         }
     }
 
@@ -426,6 +544,20 @@ impl Property for C19 {
             let mut c = t.clone();
             c.relation = Relation::ByClass;
             out.push(c);
+        }
+        if t.enum_elem {
+            let mut c = t.clone();
+            c.enum_elem = false;
+            out.push(c);
+        }
+        if t.prefill > 0 {
+            for p in [0, t.prefill / 2, t.prefill - 1] {
+                if p != t.prefill {
+                    let mut c = t.clone();
+                    c.prefill = p;
+                    out.push(c);
+                }
+            }
         }
         let n = t.ops.len();
         if n > 1 {
